@@ -234,24 +234,22 @@ void reg_div_mixed()
   };
 }
 
-// math::interval_distance.  For int and wider signed types a difference that is not representable is undefined: the
-// subtractions the function evaluates are predicted here in 128-bit arithmetic (same order of evaluation as the source).
+// math::interval_distance.  For int and wider signed types a difference that is not representable is undefined; which
+// differences are evaluated depends on the control flow, which is NOT replicated here: whenever any difference of two of
+// the four operands is not representable the line answers "guard" (the driver applies the same rule), everything else
+// runs the real function under UBSan.
 template <typename T>
 void reg_interval()
 {
   table4[std::string("interval_distance_") + tn<T>()] = [](i128 a1, i128 b1, i128 a2, i128 b2) {
     using P = promoted<T>;
-    if constexpr (std::is_signed_v<P>)
+    if constexpr (std::is_signed_v<P> && sizeof(P) == sizeof(T))
     {
-      i128 x1 = a1, y1 = b1, x2 = a2, y2 = b2;
-      if (y1 <= y2)
-      {
-        std::swap(x1, x2);
-        std::swap(y1, y2);
-      }
-      auto const bad = [](i128 d) { return d < lo<P> || d > hi<P>; };
-      if (x2 <= x1 ? bad(x1 - y2) : (bad(y2 - y1) || bad(x1 - x2)))
-        return std::string{"signed-overflow"};
+      i128 const v[4] = {a1, b1, a2, b2};
+      for (i128 const x : v)
+        for (i128 const y : v)
+          if (x - y < lo<P> || x - y > hi<P>)
+            return std::string{"guard"};
     }
     using tup = fcppt::tuple::object<T, T>;
     return show(fcppt::math::interval_distance<T>(tup{static_cast<T>(a1), static_cast<T>(b1)}, tup{static_cast<T>(a2), static_cast<T>(b2)}));
@@ -351,6 +349,12 @@ enum class eu32_3 : std::uint32_t { a, b, c, fcppt_maximum = c };
 enum class eu32_70000 : std::uint32_t { a, fcppt_maximum = 69999 };
 enum class eu64_3 : std::uint64_t { a, b, c, fcppt_maximum = c };
 enum class eu64_5000000000 : std::uint64_t { a, fcppt_maximum = 4999999999ULL };
+// enums whose underlying type is signed (size type: the unsigned counterpart); ei32_*: the default underlying type
+enum class ei8_3 : std::int8_t { a, b, c, fcppt_maximum = c };
+enum class ei8_128 : std::int8_t { a, fcppt_maximum = 127 };
+enum class ei32_3 { a, b, c, fcppt_maximum = c };
+enum class ei32_70000 { a, fcppt_maximum = 69999 };
+enum class ei32_2147483648 { a, fcppt_maximum = 2147483647 };
 
 template <typename E, typename V>
 std::string from_int(i128 v)
@@ -372,6 +376,12 @@ void reg_from_int()
   table["from_int_u32_" + v] = [](i128 x, i128 size, i128) {
     return size == 3 ? from_int<eu32_3, V>(x) : size == 70000 ? from_int<eu32_70000, V>(x) : std::string{"bad-op"};
   };
+  table["from_int_i8_" + v] = [](i128 x, i128 size, i128) {
+    return size == 3 ? from_int<ei8_3, V>(x) : size == 128 ? from_int<ei8_128, V>(x) : std::string{"bad-op"};
+  };
+  table["from_int_i32_" + v] = [](i128 x, i128 size, i128) {
+    return size == 3 ? from_int<ei32_3, V>(x) : size == 70000 ? from_int<ei32_70000, V>(x) : size == 2147483648LL ? from_int<ei32_2147483648, V>(x) : std::string{"bad-op"};
+  };
   table["from_int_u64_" + v] = [](i128 x, i128 size, i128) {
     return size == 3 ? from_int<eu64_3, V>(x) : size == 5000000000LL ? from_int<eu64_5000000000, V>(x) : std::string{"bad-op"};
   };
@@ -391,8 +401,39 @@ void reg_second()
   reg_casts<T>();
 }
 
+// truncation_check on integral types that are not the fixed-width typedefs
+template <typename D, typename S>
+void reg_trunc_named(char const *const d, char const *const s)
+{
+  table[std::string("truncation_check_") + d + "_" + s] = [](i128 a, i128, i128) {
+    auto const r = fcppt::cast::truncation_check<D>(static_cast<S>(a));
+    return r.has_value() ? "some " + str(static_cast<i128>(r.get_unsafe())) : std::string{"none"};
+  };
+}
+
 void init2()
 {
+  static_assert(std::is_signed_v<char> && sizeof(wchar_t) == 4 && std::is_signed_v<wchar_t> && sizeof(long long) == 8);
+  reg_trunc_named<long long, std::int32_t>("ll", "i32");
+  reg_trunc_named<std::int32_t, long long>("i32", "ll");
+  reg_trunc_named<long long, std::uint64_t>("ll", "u64");
+  reg_trunc_named<unsigned long long, std::int64_t>("ull", "i64");
+  reg_trunc_named<std::uint64_t, unsigned long long>("u64", "ull");
+  reg_trunc_named<std::int64_t, long long>("i64", "ll");
+  reg_trunc_named<unsigned long long, long long>("ull", "ll");
+  reg_trunc_named<std::uint8_t, long long>("u8", "ll");
+  reg_trunc_named<char, std::int32_t>("ch", "i32");
+  reg_trunc_named<char, std::uint8_t>("ch", "u8");
+  reg_trunc_named<std::uint8_t, char>("u8", "ch");
+  reg_trunc_named<std::int8_t, char>("i8", "ch");
+  reg_trunc_named<wchar_t, std::int64_t>("wc", "i64");
+  reg_trunc_named<wchar_t, std::uint32_t>("wc", "u32");
+  reg_trunc_named<std::uint16_t, wchar_t>("u16", "wc");
+  reg_trunc_named<char8_t, std::int16_t>("c8", "i16");
+  reg_trunc_named<char16_t, std::int32_t>("c16", "i32");
+  reg_trunc_named<char16_t, char32_t>("c16", "c32");
+  reg_trunc_named<char32_t, std::int64_t>("c32", "i64");
+  reg_trunc_named<std::int16_t, char16_t>("i16", "c16");
   reg_second<std::uint8_t>();
   reg_second<std::uint16_t>();
   reg_second<std::uint32_t>();
@@ -461,6 +502,11 @@ void init2()
   reg_enum_size<eu32_70000>("u32", 69999);
   reg_enum_size<eu64_3>("u64", 2);
   reg_enum_size<eu64_5000000000>("u64", 4999999999LL);
+  reg_enum_size<ei8_3>("i8", 2);
+  reg_enum_size<ei8_128>("i8", 127);
+  reg_enum_size<ei32_3>("i32", 2);
+  reg_enum_size<ei32_70000>("i32", 69999);
+  reg_enum_size<ei32_2147483648>("i32", 2147483647);
   // narrow ceil_div_signed: quotient and remainder are computed in int (never overflows) and cast back
   table["ceil_div_signed_i8"] = [](i128 a, i128 b, i128) {
     return show(fcppt::math::ceil_div_signed<std::int8_t>(static_cast<std::int8_t>(a), static_cast<std::int8_t>(b)));
